@@ -47,6 +47,8 @@ def step (sess : Session) (line : String) : Session × String :=
     let (outs, s) := takeOutput sess.st
     ({ sess with st := s }, if outs.isEmpty then "-" else " ".intercalate (outs.map encOut))
   | ["state"] => (sess, encState sess.st.state)
+  | ["reads"] => (sess, toString sess.st.reads)
+  | ["nesting"] => (sess, toString sess.st.nesting)
   | ["snap"] => (sess, encSnapshot sess.st)
   | ["caret", h] =>
     (match sess.lastErr with
